@@ -1072,6 +1072,18 @@ def c16_loop_and_json(res, seed, tier):
                     ok = got == want
                 if not ok:
                     viol(res, "C16", f"saved parameters do not describe the run: {kk} = {got!r}, run used {want!r}")
+            if cfg["class"] == "psi":
+                rt = cfg.get("restoration_tau", 60)
+                want_rt = [float(rt[s_]) for s_ in sorted(rt)] if isinstance(rt, dict) else [float(rt)] * len(m.sectors)
+                got_rt = params.get("inventory_restoration_tau")
+                try:
+                    ok_rt = got_rt is not None and len(got_rt) == len(want_rt) and all(
+                        abs(float(g) - w) <= 1e-9 * max(1.0, abs(w)) for g, w in zip(got_rt, want_rt))
+                except Exception:
+                    ok_rt = False
+                if not ok_rt:
+                    viol(res, "C16", f"saved parameters do not describe the run: inventory_restoration_tau = {got_rt!r}, run used {want_rt!r} "
+                                     f"(step length {cfg['dt']})")
             if len(events) != len(sc["events"]) or any(e["occurrence"] != s_["occ"] or e["duration"] != s_["dur"] for e, s_ in zip(events, sc["events"])):
                 viol(res, "C16", "saved events do not describe the events of the run")
             if index.get("regions") != list(m.regions) or index.get("sectors") != list(m.sectors) or index.get("n_industries") != m.n_sectors * m.n_regions:
@@ -1161,6 +1173,25 @@ def explore_c17(tier, seed):
         for v in paired.table_reuse(scs[0], None, s, pid="C17"):
             res["paired_runs"] += 1
             res["violations"].append({"violation": v, "scenario": scs[0]})
+        # the caller's list of events given to the constructor stays the caller's: adding an event to the simulation does
+        # not change it, and a second simulation given the same list tracks exactly its events
+        try:
+            _evs = [scen.build_event(e) for e in scs[0]["events"]]
+            if len(_evs) >= 2:
+                _lst = _evs[:-1]
+                _ids = [id(x) for x in _lst]
+                _s1 = Simulation(scen.build_model(scs[0]["table"], scs[0]["model"]), events_list=_lst, n_temporal_units_to_sim=scs[0]["T"])
+                _s1.add_event(_evs[-1])
+                if [id(x) for x in _lst] != _ids:
+                    viol(res, "C17", "the caller's list of events (events_list) was modified by add_event", case=scen.summarize(scs[0]))
+                _s2 = Simulation(scen.build_model(scs[0]["table"], scs[0]["model"]), events_list=_lst, n_temporal_units_to_sim=scs[0]["T"])
+                if len(_s2.all_events) != len(_ids) or len(_s2._event_tracking) != len(_ids):
+                    viol(res, "C17", "a second simulation given the same events_list does not hold exactly its events",
+                         case=scen.summarize(scs[0]), held=len(_s2.all_events), tracked=len(_s2._event_tracking), given=len(_ids))
+                if len(_s1.all_events) != len(_evs):
+                    viol(res, "C17", "events of a simulation changed when another simulation was built from the same list", case=scen.summarize(scs[0]))
+        except Exception as _e:
+            viol(res, "C17", f"events_list / add_event sequence fails: {type(_e).__name__}: {str(_e)[:120]}", case=scen.summarize(scs[0]))
         # a simulation copied in the middle of its run, the run continued with the copy
         _b0 = paired.run_records(copy.deepcopy(scs[0]))
         for v in paired.copy_midrun(scs[0], _b0, 2 * s, pid="C17"):
